@@ -55,8 +55,8 @@ DesignInv(vt) ==
 (* The domain on which the specification's operators are total: a logged state  *)
 (* outside it (a cursor below the screen, margins beyond the screen, ...) is    *)
 (* reported (geometry: C02; hidden structure: drift) together with the step     *)
-(* that produced it, and the terminal is not judged any further - except that a *)
-(* later panic still counts.                                                    *)
+(* that produced it; from then on only the geometry of that terminal's logged   *)
+(* states (GeomOK is total) and panics are judged.                              *)
 Sane(vt) ==
   LET t == vt.t  o == t.other IN
   /\ GeomOK(vt)
@@ -65,7 +65,6 @@ Sane(vt) ==
   /\ t.buf.cols = t.cols /\ t.buf.rows = t.rows
   /\ o.cols >= 1 /\ o.rows >= 1 /\ Len(o.lines) >= o.rows
   /\ \A i \in 1..Len(o.lines) : Len(o.lines[i].c) = o.cols
-  /\ \A i \in 1..Len(t.tabs) : t.tabs[i] < t.cols /\ t.tabs[i] >= 0
 (* "col = cols only as the wrap-pending position reached by printing in the     *)
 (* last column with auto-wrap on": a step that raises pw must contain a Print   *)
 (* or Rep, and auto-wrap must have been on at some point of the step.           *)
@@ -103,6 +102,13 @@ ParserCore(p) ==     \* what of the parser a continuation can expose: stale para
   [state |-> p.state,
    params |-> IF p.state \in {"CsiParam", "DcsParam"} THEN p.params ELSE <<>>,
    inter |-> IF p.state \in {"EscapeIntermediate", "CsiIntermediate", "CsiParam", "DcsIntermediate", "DcsParam"} THEN p.inter ELSE -1]
+(* what of the parser can ever be read again: parameters and the intermediate are cleared on every entry  *)
+(* into Escape / CsiEntry / DcsEntry, so whatever is left in them in Ground, in a string state or in an  *)
+(* ignore state is dead - an implementation may keep it or wipe it                                       *)
+ParserLive(p) ==
+  [state |-> p.state,
+   params |-> IF p.state \in {"CsiEntry", "CsiParam", "CsiIntermediate", "DcsEntry", "DcsParam", "DcsIntermediate"} THEN p.params ELSE <<>>,
+   inter |-> IF p.state \in {"Escape", "EscapeIntermediate", "CsiEntry", "CsiParam", "CsiIntermediate", "DcsEntry", "DcsParam", "DcsIntermediate"} THEN p.inter ELSE -1]
 Hidden(vt) ==
   LET t == vt.t IN
   [pen |-> t.pen, g0 |-> t.g0, g1 |-> t.g1, gl |-> t.gl, tabs |-> t.tabs, insert |-> t.insert, origin |-> t.origin,
